@@ -2,75 +2,62 @@ package main
 
 import (
 	"fmt"
-	"strconv"
 
-	"github.com/xuperchain/xupercore/kernel/contract"
-	"github.com/xuperchain/xupercore/kernel/contract/proposal/utils"
+	"github.com/xuperchain/xupercore/bcs/consensus/tdpos"
+	xctx "github.com/xuperchain/xupercore/kernel/common/xcontext"
+	cctx "github.com/xuperchain/xupercore/kernel/consensus/context"
+	cdef "github.com/xuperchain/xupercore/kernel/consensus/def"
+	"github.com/xuperchain/xupercore/kernel/engines/xuperos/agent"
+	nctx "github.com/xuperchain/xupercore/kernel/network/context"
+	"github.com/xuperchain/xupercore/kernel/network/p2p"
+	"github.com/xuperchain/xupercore/lib/logs"
+	"github.com/xuperchain/xupercore/lib/timer"
+	pb "github.com/xuperchain/xupercore/protos"
+
+	"verif/harness/fx"
 )
 
-// Stand-in for the TDPoS consensus kernel contract "$tdpos" (bcs/consensus/tdpos/kernel_contract.go).
-// The fixture chain runs the "single" consensus, so the real TDPoS contract (which needs a TDPoS
-// consensus instance, its election state and ledger snapshots three blocks back) is not registered.
-// The subject of C19 is $govern_token: what matters is that Lock / UnLock are reached from a kernel
-// contract named "$tdpos" with lock_type "tdpos". The two methods below issue exactly the nested calls
-// of runVote (kernel_contract.go:198-206) and runRevokeVote (:271-279, :292-298), in the same order
-// (revokeVote unlocks first and then checks the ballot, failing the whole call if it is too small),
-// with the ballot kept in the contract's own bucket instead of the election snapshot.
-func registerTdposStandIn(mg contract.Manager) {
-	reg := mg.GetKernRegistry()
-	bucket := utils.TDPOSKernelContract
-	amountOf := func(ctx contract.KContext) (int64, error) {
-		amount, err := strconv.ParseInt(string(ctx.Args()["amount"]), 10, 64)
-		if amount <= 0 || err != nil {
-			return 0, fmt.Errorf("amount in contract can not be empty or negative")
-		}
-		return amount, nil
+// The real TDPoS kernel contract (bcs/consensus/tdpos/kernel_contract.go: nominateCandidate,
+// revokeNominate, voteCandidate, revokeVote) is registered on the fixture's contract manager by
+// constructing a real TDPoS consensus instance over the fixture's ledger (tdpos.NewTdposConsensus, the
+// same constructor the pluggable consensus uses; chained-bft off). The chain itself keeps producing
+// blocks the way the harness does (the consensus instance is used for its kernel contract only): the
+// contract reads its election records through ledger snapshots at the height passed by the caller and
+// writes them, and calls $govern_token.Lock / UnLock, through the transaction's sandbox.
+
+type stubNet struct{ account string }
+
+func (stubNet) Start() {}
+func (stubNet) Stop()  {}
+func (stubNet) SendMessage(xctx.XContext, *pb.XuperMessage, ...p2p.OptionFunc) error { return nil }
+func (stubNet) SendMessageWithResponse(xctx.XContext, *pb.XuperMessage, ...p2p.OptionFunc) ([]*pb.XuperMessage, error) {
+	return nil, nil
+}
+func (stubNet) NewSubscriber(pb.XuperMessage_MessageType, interface{}, ...p2p.SubscriberOption) p2p.Subscriber {
+	return nil
+}
+func (stubNet) Register(p2p.Subscriber) error   { return nil }
+func (stubNet) UnRegister(p2p.Subscriber) error { return nil }
+func (stubNet) Context() *nctx.NetCtx           { return nil }
+func (s stubNet) PeerInfo() pb.PeerInfo         { return pb.PeerInfo{Account: s.account} }
+
+func registerTdpos(node *fx.Node) error {
+	lg, err := logs.NewLogger("", "consensus")
+	if err != nil {
+		return err
 	}
-	ballot := func(ctx contract.KContext) int64 {
-		b, err := ctx.Get(bucket, []byte("vote_"+ctx.Initiator()))
-		if err != nil {
-			return 0
-		}
-		v, _ := strconv.ParseInt(string(b), 10, 64)
-		return v
+	miner := node.Ctx.Address.Address
+	cc := cctx.ConsensusCtx{BcName: fx.BCName, Address: (*cctx.Address)(node.Ctx.Address), Crypto: fx.Crypto,
+		Contract: node.Contract, Ledger: agent.NewLedgerAgent(node.Ctx), Network: stubNet{miner}}
+	cc.XLog = lg
+	cc.Timer = timer.NewXTimer()
+	conf := fmt.Sprintf(`{"timestamp":"1559021720000000000","proposer_num":"1","period":"3000","alternate_interval":"3000",`+
+		`"term_interval":"6000","block_num":"20","vote_unit_price":"1","init_proposer":{"1":["%s"]}}`, miner)
+	if c := tdpos.NewTdposConsensus(cc, cdef.ConsensusConfig{ConsensusName: "tdpos", Config: conf, StartHeight: 0, Index: 0}); c == nil {
+		return fmt.Errorf("tdpos.NewTdposConsensus returned nil")
 	}
-	tokenArgs := func(ctx contract.KContext, amount int64) map[string][]byte {
-		return map[string][]byte{
-			"from":      []byte(ctx.Initiator()),
-			"amount":    []byte(fmt.Sprintf("%d", amount)),
-			"lock_type": []byte(utils.GovernTokenTypeTDPOS),
-		}
+	if _, err := node.Contract.GetKernRegistry().GetKernMethod("$tdpos", "voteCandidate"); err != nil {
+		return err
 	}
-	ok := &contract.Response{Status: 200, Message: "success", Body: []byte("ok")}
-	reg.RegisterKernMethod(bucket, "voteCandidate", func(ctx contract.KContext) (*contract.Response, error) {
-		amount, err := amountOf(ctx)
-		if err != nil {
-			return nil, err
-		}
-		if _, err := ctx.Call("xkernel", utils.GovernTokenKernelContract, "Lock", tokenArgs(ctx, amount)); err != nil {
-			return nil, err
-		}
-		v := ballot(ctx) + amount
-		if err := ctx.Put(bucket, []byte("vote_"+ctx.Initiator()), []byte(strconv.FormatInt(v, 10))); err != nil {
-			return nil, err
-		}
-		return ok, nil
-	})
-	reg.RegisterKernMethod(bucket, "revokeVote", func(ctx contract.KContext) (*contract.Response, error) {
-		amount, err := amountOf(ctx)
-		if err != nil {
-			return nil, err
-		}
-		if _, err := ctx.Call("xkernel", utils.GovernTokenKernelContract, "UnLock", tokenArgs(ctx, amount)); err != nil {
-			return nil, err
-		}
-		v := ballot(ctx)
-		if v < amount {
-			return nil, fmt.Errorf("Your vote amount is less than have.")
-		}
-		if err := ctx.Put(bucket, []byte("vote_"+ctx.Initiator()), []byte(strconv.FormatInt(v-amount, 10))); err != nil {
-			return nil, err
-		}
-		return ok, nil
-	})
+	return nil
 }
